@@ -170,6 +170,21 @@ theorem half_open_iff_probe_in_flight (c : Cfg) (ht : 1 ≤ c.threshold) (ops : 
     (finalB c {} ops).state = .halfOpen ↔ (finalB c {} ops).probe = true :=
   (wfb_final c ops ht).half_iff_probe
 
+/-- The breaker inside a resilient sink only ever sees `allow_request`/`record_success`/`record_failure`
+calls, so everything above holds of it for every interleaving of senders through the sink; in
+particular the reachable-state invariants. -/
+theorem sink_breaker_follows_contract (cfg : Cfg) (name : String) (steps : List Step) (ht : 1 ≤ cfg.threshold) :
+    let b := (runS { cfg := cfg, name := name } steps).breaker
+    (∃ ops, b = finalB cfg {} ops) ∧
+    (b.state = .closed → b.fails < cfg.threshold) ∧ (b.state = .opened → b.lastFailure.isSome = true) ∧
+    (b.state = .halfOpen ↔ b.probe = true) := by
+  intro b
+  obtain ⟨ops, h, _⟩ := runS_breaker steps { cfg := cfg, name := name }
+  have hb : b = finalB cfg {} ops := h
+  have hwf := wfb_final cfg ops ht
+  rw [← hb] at hwf
+  exact ⟨⟨ops, hb⟩, hwf.closed_lt, hwf.open_has_time, hwf.half_iff_probe⟩
+
 /-- With no stale call in flight — the probe `i` is the only sender inside the inner sink — the
 probe decides: every other sender is rejected (its events go to the DLQ), nobody else can complete,
 and the probe's own outcome closes or reopens the breaker. -/
